@@ -795,6 +795,10 @@ fn supervise(args: &Args, spec: &str, progress: &std::path::Path, case_timeout: 
             let mut last = (None::<u64>, Instant::now());
             while !done.load(std::sync::atomic::Ordering::Relaxed) {
                 std::thread::sleep(Duration::from_millis(100));
+                if ABANDON.load(std::sync::atomic::Ordering::Relaxed) {
+                    let _ = child.lock().unwrap().kill();
+                    break;
+                }
                 let cur = read_progress(&progress);
                 if cur != last.0 {
                     last = (cur, Instant::now());
@@ -828,6 +832,9 @@ fn supervise(args: &Args, spec: &str, progress: &std::path::Path, case_timeout: 
     };
     done.store(true, std::sync::atomic::Ordering::Relaxed);
     let _ = wd.join();
+    if ABANDON.load(std::sync::atomic::Ordering::Relaxed) {
+        return (merged, None);
+    }
     let hung = *killed.lock().unwrap();
     if let Some(id) = hung {
         return (merged, Some((id, format!("no progress for {:?} (killed)", case_timeout))));
@@ -846,6 +853,11 @@ fn supervise(args: &Args, spec: &str, progress: &std::path::Path, case_timeout: 
         None => (merged, Some((u64::MAX, "wait failed".into()))),
     }
 }
+
+/// set once enough hangs have been confirmed: each costs 4 x the case budget, a change that makes thousands of inputs hang
+/// would otherwise keep the sweep going for hours although the verdict is already in
+static ABANDON: std::sync::atomic::AtomicBool = std::sync::atomic::AtomicBool::new(false);
+static CONFIRMED_HANGS: std::sync::atomic::AtomicU64 = std::sync::atomic::AtomicU64::new(0);
 
 fn replay(case: &Value, st: &mut Stats) {
     let bytes = crate::util::unhex(case["input"].as_str().unwrap_or(""));
@@ -896,6 +908,9 @@ pub fn run(args: &Args) -> i32 {
                 let mut all = Stats::default();
                 let mut deaths = vec![];
                 loop {
+                    if ABANDON.load(std::sync::atomic::Ordering::Relaxed) {
+                        break;
+                    }
                     let (st, died) = supervise(args, &format!("shard:{k}:{n}:{start}"), &progress, case_timeout);
                     all.merge(st);
                     match died {
@@ -913,7 +928,12 @@ pub fn run(args: &Args) -> i32 {
                                 let t = if hang { case_timeout * 3 } else { case_timeout };
                                 let (st1, died1) = supervise(args, &format!("one:{id}"), &scratch.join(format!("progress-one-{k}")), t);
                                 match died1 {
-                                    Some((_, why1)) => deaths.push((id, format!("{why}; alone: {why1}"))),
+                                    Some((_, why1)) => {
+                                        deaths.push((id, format!("{why}; alone: {why1}")));
+                                        if hang && CONFIRMED_HANGS.fetch_add(1, std::sync::atomic::Ordering::Relaxed) + 1 >= 3 {
+                                            ABANDON.store(true, std::sync::atomic::Ordering::Relaxed);
+                                        }
+                                    }
                                     None if hang => {
                                         // the case completes when run alone: the watchdog fired because the machine was busy
                                         all.merge(st1);
@@ -929,6 +949,9 @@ pub fn run(args: &Args) -> i32 {
                                 deaths.push((id, why));
                             }
                             start = id + 1;
+                            if ABANDON.load(std::sync::atomic::Ordering::Relaxed) {
+                                break;
+                            }
                             if deaths.len() > 20_000 {
                                 deaths.push((u64::MAX, "more than 20 000 worker deaths in one shard".into()));
                                 break;
@@ -964,7 +987,9 @@ pub fn run(args: &Args) -> i32 {
     let died = ctx.stats.extra.get("worker_deaths").copied().unwrap_or(0);
     if ctx.stats.evals != space.total {
         ctx.cap(format!("{} of {} cases completed, {died} cases killed their worker (each is skipped after being attributed)", ctx.stats.evals, space.total));
-        if ctx.stats.evals + died + 16 < space.total {
+        if ABANDON.load(std::sync::atomic::Ordering::Relaxed) {
+            ctx.cap("sweep abandoned after three confirmed hangs (each confirmed alone with three times the budget): the violations below stand, the remaining cases were not run".to_string());
+        } else if ctx.stats.evals + died + 16 < space.total {
             ctx.machinery(format!("only {} of {} cases were executed and only {died} worker deaths explain the gap", ctx.stats.evals, space.total));
         }
     }
